@@ -870,12 +870,17 @@ where
 /// // This would be valid for SUBSCRIBE packets
 /// ```
 fn validate_subscribe_properties(props: &Properties) -> Result<(), MqttError> {
+    let mut count_subscription_identifier = 0;
     for prop in props {
         match prop {
-            Property::SubscriptionIdentifier(_) => {}
+            Property::SubscriptionIdentifier(_) => count_subscription_identifier += 1,
             Property::UserProperty(_) => {}
             _ => return Err(MqttError::ProtocolError),
         }
+    }
+    if count_subscription_identifier > 1 {
+        // "It is a Protocol Error to include the Subscription Identifier more than once" (3.8.2.1.2)
+        return Err(MqttError::ProtocolError);
     }
     Ok(())
 }
